@@ -555,3 +555,139 @@ def m_slice_contains(it, args, callee):
 
 
 VEC_MODELS[r"^core::slice::<impl \[.*\]>::contains$"] = m_slice_contains
+
+
+# ----------------------------------------------------------------------------------------------
+# owned iteration with adapters: vec.into_iter().map(f).map(g).unzip() / .collect()
+
+class MapIter:
+    def __init__(self, base, closures):
+        self.base, self.closures = base, list(closures)
+
+
+def m_vec_into_iter_owned(it, args, callee):
+    v = it.deref(args[0], it.cur_env)
+    if not isinstance(v, VecVal):
+        raise Unsupported("into_iter on %r" % (v,))
+    return IterVal(list(v.items))
+
+
+def m_iter_map(it, args, callee):
+    base, clo = args
+    if isinstance(base, MapIter):
+        return MapIter(base.base, base.closures + [clo])
+    if isinstance(base, IterVal):
+        return MapIter(base, [clo])
+    raise Unsupported("Iterator::map on %r" % (base,))
+
+
+def _apply_chain(it, mi):
+    """all ways of running the closure chain over the items: [(pc, [results])]"""
+    paths = [([], [])]
+    items = mi.base.items[mi.base.pos:] if isinstance(mi, MapIter) else mi.items[mi.pos:]
+    closures = mi.closures if isinstance(mi, MapIter) else []
+    for item in items:
+        new_paths = []
+        for pc, acc in paths:
+            partial = [(pc, item)]
+            for clo in closures:
+                nxt = []
+                for pc1, val in partial:
+                    if isinstance(clo, Agg) and clo.ty.startswith("{closure@"):
+                        f = it.closure_fn(clo)
+                        for (pc2, out, kind, msg) in it.call_fn(f, [clo, val]):
+                            if kind == "panic":
+                                raise Unsupported("closure in iterator chain can panic: %s" % msg)
+                            nxt.append((pc1 + pc2, out))
+                    elif isinstance(clo, Opaque) and clo.what.startswith("fnitem:"):
+                        f = it.fn_item(clo.what[len("fnitem:"):]) if hasattr(it, "fn_item") else None
+                        if f is None:
+                            raise Unsupported("function item %s in iterator chain" % clo.what)
+                        if callable(f):
+                            nxt.append((pc1, f(it, [val], clo.what)))
+                            continue
+                        for (pc2, out, kind, msg) in it.call_fn(f, [val]):
+                            if kind == "panic":
+                                raise Unsupported("function in iterator chain can panic: %s" % msg)
+                            nxt.append((pc1 + pc2, out))
+                    else:
+                        raise Unsupported("iterator adapter with %r" % (clo,))
+                partial = nxt
+            for pc1, val in partial:
+                new_paths.append((pc1, acc + [val]))
+        paths = new_paths
+        if len(paths) > 512:
+            raise Unsupported("iterator chain: too many paths")
+    return paths
+
+
+def m_iter_unzip(it, args, callee):
+    out = []
+    for pc, vals in _apply_chain(it, args[0]):
+        a = VecVal([v.fields["0"] for v in vals])
+        b = VecVal([v.fields["1"] for v in vals])
+        out.append((pc, Agg("tuple", {"0": a, "1": b}), "return", None))
+    return out
+
+
+def m_iter_collect(it, args, callee):
+    return [(pc, VecVal(vals), "return", None) for pc, vals in _apply_chain(it, args[0])]
+
+
+ITER_MODELS = {
+    r"^<Vec<.*> as IntoIterator>::into_iter$": m_vec_into_iter_owned,
+    r"^<std::vec::IntoIter<.*> as Iterator>::map::<": m_iter_map,
+    r"^<std::iter::Map<.*> as Iterator>::map::<": m_iter_map,
+    r"^<std::iter::Map<.*> as Iterator>::unzip::<": m_iter_unzip,
+    r"^<std::iter::Map<.*> as Iterator>::collect::<": m_iter_collect,
+    r"^<std::vec::IntoIter<.*> as Iterator>::collect::<": m_iter_collect,
+}
+
+
+# ----------------------------------------------------------------------------------------------
+# closures called through the Fn* traits, and for_each
+
+def m_fn_trait_call(it, args, callee):
+    clo, tup = args
+    states = it.run_closure_seq(clo, [tup], unpack=True)
+    out = []
+    for pc, env, acc in states:
+        kind, val = acc[0]
+        if kind == "panic":
+            out.append((pc, None, "panic", val))
+        else:
+            out.append((pc, val, "return", None, {"env": env}))
+    return out
+
+
+def m_for_each(it, args, callee):
+    src, clo = args
+    src = it.deref(src, it.cur_env)
+    if isinstance(src, IterVal):
+        items = src.items[src.pos:]
+    elif isinstance(src, VecVal):
+        items = src.items
+    else:
+        raise Unsupported("for_each over %r" % (src,))
+    out = []
+    for pc, env, acc in it.run_closure_seq(clo, items):
+        bad = [v for k, v in acc if k == "panic"]
+        if bad:
+            out.append((pc, None, "panic", bad[0]))
+        else:
+            out.append((pc, Opaque("unit"), "return", None, {"env": env}))
+    return out
+
+
+CLOSURE_MODELS = {
+    r" as Fn(Mut|Once)?<\(.*\)>>::call(_mut|_once)?$": m_fn_trait_call,
+    r"^<std::slice::Iter<'_, .*> as Iterator>::for_each::<": m_for_each,
+    r"^<std::vec::IntoIter<.*> as Iterator>::for_each::<": m_for_each,
+}
+MORE_MODELS.update(CLOSURE_MODELS)
+
+
+STD_MODELS.update({
+    r"^<quantity::Number as From<f64>>::from$": m_f64_into_number,
+    r"RangeInclusive::<f64>::into_inner$": lambda it, a, c: Agg("tuple", {"0": a[0].fields["0"], "1": a[0].fields["1"]}),
+})
